@@ -843,6 +843,40 @@ class MustFollowFail(MustFollow):
             self.bad.setdefault(e[2], (b["id"], st))
         return out
 
+    def _saved_count(self, a, b_):
+        """a is a count field of the problem, b_ a local whose only assignment copies that field (the count saved before the batch call)"""
+        a0, b0 = strip(a), strip(b_)
+        if not (isinstance(a0, list) and a0 and a0[0] == "m" and a0[2].split("::")[1] in ("nrows", "ncols", "nstruct") and is_var(b0, kind="l")):
+            return False
+        srcs = []
+        for bb, ii, ee in self.f.elements(live_only=False):
+            if ee[0] == "A" and is_var(ee[1][2], name=b0[2], kind="l"):
+                srcs.append(ee[1][3] if ee[1][1] == "=" else None)
+            elif ee[0] == "D":
+                srcs += [init for n2, init in ee[1] if n2 == b0[2] and init is not None]
+            elif ee[0] == "U" and is_var(ee[1][2], name=b0[2], kind="l"):
+                srcs.append(None)
+        if len(srcs) != 1 or srcs[0] is None:
+            return False
+        r0 = strip(srcs[0])
+        return isinstance(r0, list) and r0 and r0[0] == "m" and r0[2] == a0[2]
+
+    def refine(self, cond, truth, st):
+        r = MustFollow.refine(self, cond, truth, st)
+        if not r:
+            return r
+        out = []
+        for s in r:
+            if s[2] == 2:
+                for l, op, rr in atoms(cond, truth):
+                    for a, b_, o in ((l, rr, op), (rr, l, SWAP[op])):
+                        if o == "==" and self._saved_count(a, b_):
+                            # the count is what it was before the batch call: nothing of the batch went in, the failing return is that of
+                            # a call rejected as a whole (which must leave the cache alone, R-ATOMIC)
+                            s = (s[0], s[1], 1, s[3])
+            out.append(s)
+        return out
+
 
 def run_failpath(prog, E=None, prefix="mpq_", rule="R-INVALPART"):
     """callees that apply a batch element by element can fail after having changed the problem (the known findings of R-ATOMIC name them:
